@@ -280,6 +280,108 @@ def oracle(res, es, tier):
     return n
 
 
+
+# ---- the same expressions inside whole modules, in every syntactic context, minified with the DEFAULT options and executed
+CTX_MODULE = """import functools
+def deco(arg):
+    def wrap(fn):
+        fn.arg = arg
+        return fn
+    return wrap
+class Base:
+    def __init_subclass__(cls, flag=None, **kw):
+        cls.flag = flag
+@deco({E})
+def with_defaults(first={E}, second=({E}), *, third={E}):
+    return first, second, third
+def annotated(value: ({E}) = None) -> ({E}):
+    return value
+class Holder(Base, flag={E}):
+    attribute = {E}
+    def method(self, given={E}):
+        return given, self.attribute
+handler = lambda picked={E}: (picked, {E})
+table = [{E} for _ in range(2)]
+mapping = {{({E}): ({E})}}
+def body():
+    inner = {E}
+    def nested(deep={E}):
+        return deep, inner
+    return nested()
+def show(v):
+    return type(v).__name__ + ':' + repr(v)
+print(show(with_defaults()), show(with_defaults.arg), show(annotated.__annotations__), show(Holder.flag), show(Holder().method()), show(handler()), show(table), show(mapping), show(body()))
+"""
+
+
+# every occurrence inside ONE function (header + body): whatever is hoisted or re-bound lands in that function's namespace
+PRE = "def deco(arg):\n    def wrap(fn):\n        fn.arg = arg\n        return fn\n    return wrap\nclass Base:\n    def __init_subclass__(cls, flag=None, **kw):\n        cls.flag = flag\ndef show(v):\n    return type(v).__name__ + ':' + repr(v)\n"
+CTX_SINGLE = [
+    "def f(value, strict={E}):\n    return [strict, {E}, {E}, {E}, value]\nprint(show(f(0)))\n",
+    "def f(*items, fallback={E}):\n    return [fallback, {E}, {E}, {E}, len(items)]\nprint(show(f(1, 2)))\n",
+    "@deco({E})\ndef f():\n    return [{E}, {E}, {E}, {E}]\nprint(show(f.arg), show(f()))\n",
+    "def f(value: ({E}) = None) -> ({E}):\n    return [{E}, {E}, {E}, value]\nprint(show(f()), show(f.__annotations__))\n",
+    "def outer():\n    def inner(deep={E}, *, other={E}):\n        return [deep, other, {E}, {E}, {E}]\n    return inner()\nprint(show(outer()))\n",
+    "A = 'unrelated module level value'\nB = 17\ndef f(value, strict={E}):\n    results = [strict, {E}, {E}, {E}]\n    return results\nprint(show(f(0)), A, B)\n",
+    "def outer():\n    class K(Base, flag={E}):\n        x = {E}\n        def m(self, given={E}):\n            return [given, {E}, {E}, {E}]\n    return K.flag, K.x, K().m()\nprint(show(outer()))\n",
+    "def outer():\n    g = lambda picked={E}: [picked, {E}, {E}, {E}]\n    return g()\nprint(show(outer()))\n",
+    "async def f(value, strict={E}):\n    return [strict, {E}, {E}, {E}, value]\nprint(f.__defaults__, f.__name__)\n",
+]
+
+
+def run_module(src):
+    import subprocess
+    p = subprocess.run([common.PY, '-I', '-c', src], stdout=subprocess.PIPE, stderr=subprocess.PIPE, timeout=60)
+    err = p.stderr.decode('utf-8', 'replace').strip().splitlines()
+    return p.stdout.decode('utf-8', 'replace'), p.returncode, (err[-1].split(':')[0] if err else '')
+
+
+def oracle_contexts(res, es, tier):
+    """fold(E) in whatever context E appears: defaults, keyword-only defaults, decorator arguments, annotations, class keywords, class
+    attributes, lambda defaults, comprehensions, dict displays, nested functions - with every other default option (hoisting, renaming) on"""
+    import python_minifier
+    from concurrent.futures import ThreadPoolExecutor
+    picks = ['True|False', 'True&True', '0.5+0.5', '1.5-0.5', '2-1.0', '0.25*4', '0j+0j', '1-1.0', '1j-1j', '10-100+95', '2*3+4', "100000*10", '7//2', '-5%3', '1<<10', '6^3', '~5+1', '3-True', '0.1+0.2', '1e308*10',
+             '2**0.5', '1/3', '(1+2j)*(3-4j)', '5-(2+3)*2']
+    picks += [e for i, e in enumerate(es) if i % (97 if tier == 'quick' else 11) == 0 and 'n' not in e.replace('not', '').replace('None', '').replace('in', '')][: 20 if tier == 'quick' else 300]
+    jobs = []
+    for e in picks:
+        src = CTX_MODULE.replace('{E}', e).replace('{{', '{').replace('}}', '}')
+        try:
+            compile(src, '<ctx>', 'exec', dont_inherit=True)
+        except Exception:
+            continue
+        jobs.append((e, src))
+    for e in picks[:12] if tier == 'quick' else picks[:60]:
+        for c in CTX_SINGLE:
+            src = PRE + c.replace('{E}', e)
+            try:
+                compile(src, '<ctx>', 'exec', dont_inherit=True)
+            except Exception:
+                continue
+            jobs.append((e, src))
+
+    def one(job):
+        e, src = job
+        outs = {}
+        for label, kw in (('defaults', {'remove_annotations': False}), ('folding-off', {'constant_folding': False, 'remove_annotations': False}), ('folding-only', dict(hoist_literals=False, rename_locals=False, remove_annotations=False))):   # annotations are observed, so they are kept
+            try:
+                outs[label] = python_minifier.minify(src, **kw)
+            except Exception as ex:   # noqa
+                outs[label] = ex
+        return e, src, run_module(src), {k: (v if isinstance(v, Exception) else (v, run_module(v))) for k, v in outs.items()}
+    n = 0
+    with ThreadPoolExecutor(12) as ex:
+        for e, src, ref, outs in ex.map(one, jobs):
+            n += 1
+            for label, v in outs.items():
+                if isinstance(v, Exception):
+                    res.add_violation('c07-minify-raises', 'minify (%s) raised %s on a module with literal arithmetic in header contexts' % (label, type(v).__name__), {'expression': e, 'source': src})
+                elif v[1] != ref:
+                    res.add_violation('c07-context-behaviour-differs', 'a module with the literal expression %s in default / decorator / annotation / class contexts behaves differently after minify(%s): %r instead of %r'
+                                      % (e, label, v[1], ref), {'expression': e, 'source': src, 'options': label, 'output': v[0]})
+    return n
+
 def run(pid, tier):
     res = common.Result(pid, tier)
     res.trusted = TRUSTED
@@ -291,9 +393,10 @@ def run(pid, tier):
         nF, nfolded = leg_F(res, es if tier != 'quick' else es[:700])
         nL, nH = leg_L(res, tier)
     nO = oracle(res, es, tier)
+    nC = oracle_contexts(res, es, tier)
     res.samples = es[:3] + es[-3:]
     res.coverage.update({'leg_F_expressions': nF, 'leg_F_expressions_actually_folded': nfolded, 'leg_L_value_model_cases': nL, 'leg_L_candidates_reparsing': nH,
-                         'oracle_expressions': nO, 'evaluations': nF + nL + nO, 'distinct_nontrivial': len(set(es)),
+                         'oracle_expressions': nO, 'oracle_context_modules_executed': nC, 'evaluations': nF + nL + nO, 'distinct_nontrivial': len(set(es)),
                          'rule': 'expressions: every operator x operand-kind pair x boundary values, plus random literal trees of depth <= 3 (with names, unary ops); non-trivial = distinct expression text; leg F compares the whole folded tree'})
     if nfolded < 20:
         res.broken.append(('correspondence', 'inconclusive tie: only %d generated expressions were actually folded by the real code' % nfolded))
